@@ -174,3 +174,16 @@ Proof.
   split; [|reflexivity]. exists top, (snd pw). split; [exact Hm|]. split; [|lia].
   destruct pw as [s w]. cbn [fst snd]. unfold sig_width. rewrite (assoc_nodup_In' s w _ Hndp Hpw). reflexivity.
 Qed.
+
+(* ---- every package the model exports is well-formed (C06) ---- *)
+Theorem pipeline_pkg_wf xi d p : wf_design d = Ok tt -> frag_ok d = true -> xinfo_ok xi d = true ->
+  elab_export_model xi d = Ok p -> wf_pkg prims_ext p = Ok tt.
+Proof.
+  intros Hwf Hfr Hxi H. unfold elab_export_model, elab_model in H.
+  apply bind_ok in H. destruct H as [d3 [Hel Hex]]. apply bind_ok in Hel. destruct Hel as [d1 [H1 Hel]]. apply bind_ok in Hel. destruct Hel as [d2 [H2 H3]].
+  pose proof (portrefs_wfs xi d d1 Hwf Hfr Hxi H1) as W1.
+  destruct (arrays_wfs d1 d2 W1 H2) as [W2 NA2]. destruct (slices_wfs d2 d3 W2 H3) as [W3 [NA3 R3]].
+  pose proof (slices_xinfo xi d2 d3 H3 (arrays_xinfo xi d1 d2 H2 (portrefs_xinfo xi d d1 H1 Hxi))) as Hxi3.
+  destruct (export_ok xi d3 W3 NA3 R3 Hxi3) as [st [pms [_ [Hinv [_ [_ [Hpms Hp]]]]]]]. rewrite Hex in Hp. inversion Hp; subst p.
+  apply (export_pkg_wf xi d3 W3 NA3 R3 Hxi3 st pms Hinv Hpms).
+Qed.
